@@ -47,6 +47,46 @@ CLAIMED = {
          "Theorems for every table: any permutation of the rows gives the same result; under the statement's exclusions a mutation is kept iff every sample has exactly one usable row; data points are numbered in sorted id order with rows in sorted sample order; defaults; major < minor rejected. Tie: generated tables with controlled defects, tab/comma separated, with/without cluster file, awkward identifiers.",
          "pandas/CSV parsing is outside the model (identifiers are taken as the loader presents them); all-dropped tables are not compared.",
          "DESIGN.md section 6 C17"),
+ "C06": ("Coq proof of a cache invariant over an executable labelled-tree model with an abstract recursion (every edit, every history) + per-edit differential replay against the real Tree and a from-scratch rebuild",
+         "Theorems for every recursion S, grid, positive data and finite edit history of the sampler grammar: cached vectors equal the from-scratch rebuild after every edit (cache_ok is an invariant), in-place add equals recomputation, remove-then-recompute is correct; hence both joint densities read the rebuilt root vector. Tie: generated histories applied to the real Tree and the model step by step (vectors as rationals, raise <=> None), rebuild oracle after every edit and on sampler-returned trees.",
+         "Floats, the 1e-100 floor and the FFT path are outside the model (C02); NewClone's contiguous-label side condition is an explicit premise no sampler violates.",
+         "DESIGN.md section 6 C06"),
+ "C07": ("Coq proof of name-uniqueness and data-partition invariants with exact multiset conservation per edit and per history + four-view agreement (abs_impl) and conservation checks on real edit histories and real sampler runs",
+         "Theorems: every edit of the grammar (incl. graft with clashing labels, prune incl. the whole-tree branch) preserves well-formedness; data points after an edit are a permutation of the stated delta plus the points before; moves conserve data. Tie: abs_impl (name<->index maps, payloads, single parent, reachability, no duplicate assignment) after every edit of generated histories and on every tree returned by the real samplers (all kernels, outliers on/off).",
+         "Parent uniqueness and reachability hold by construction in the rose-tree model and are checked on the real object by abs_impl; sampler-level conservation is validated on real runs.",
+         "DESIGN.md section 6 C07"),
+ "C11": ("Coq proof (arg-max scan, topology dictionary as class summaries, ranking, archive prefix, row lookup, chain-order independence) + differential run of the real map / topology-report commands on synthetic multi-chain trace files against the model and a from-scratch oracle",
+         "Theorems over all traces and every chain order: the MAP entry attains the maximum, one row per distinct tree with exact count / class maximum / attaining pointer, counts sum to the number of entries, rows sorted, archive = top-ranked prefix, frequency mode returns a maximal count. Tie: write_map_results (both types) and write_topology_report (+ archive, top_trees 1/2/all) on ~900 (quick) synthetic trace files in every chain insertion order.",
+         "Trees are abstract keys (identity is C03); integer scores (NaN outside); pandas order of tied rows unspecified, rows compared up to ties.",
+         "DESIGN.md section 6 C11"),
+ "C12": ("Coq proof on a model of get_labels_table / get_clone_table / the graph conversion / the Newick structure + exhaustive differential run of the three real commands",
+         "Theorems for every labelled tree: each mutation exactly once per sample (clustered and unclustered, outlier fill-in), clone ids are Newick nodes or -1, clusters share a clone, values are the clone's or -1; the commands complete iff ... (pinned: iff the tree has a clone; repaired: always). Tie: real map/consensus/topology outputs parsed back for every tree over <= 3 points incl. all-outlier and single-clone, clustered/unclustered, 1-3 samples.",
+         "CCF values are inputs of the model (C10); the Newick text is parsed by the harness; the model variant (pinned/repaired conversion) is selected by observed behaviour.",
+         "DESIGN.md section 6 C12"),
+ "C14": ("Coq proof (an LRU table with arbitrary capacity, evictions and clears refines the function under key soundness; soundness of the three key shapes) + call-by-call shadowing of every cache against the undecorated function in real multi-sweep runs",
+         "Theorems for every call history, capacity, eviction pattern and clear schedule: memoised = unmemoised given key soundness; sorted-digest key sound from digest injectivity + permutation invariance, unordered-pair key from commutativity, proposal key includes alpha; refuted witnesses without those. Tie: every cached entry point shadowed by memoised call + __wrapped__ during real runs with concentration updates (hits recorded), decorator LRU sequences vs the Coq table.",
+         "xxh3-64 injectivity is an unprovable premise; permutation invariance is exact-arithmetic (C02) and holds in floats only inside the underflow window (measured per call; out-of-window stream reported as information only).",
+         "DESIGN.md section 6 C14"),
+ "C15": ("Coq proof of the to_dict/from_dict round trip on an index-level model with holes, edit congruence of the restored tree and the trace loop's shape + real round trips (direct/pickle/gzip, continued editing) and real run_phyclone_chain traces",
+         "Theorems: from_dict(to_dict g) restores the tree (labels, data, cached vectors) for every well-formed index-level state incl. index holes and outlier-only trees; the restored tree accepts every further edit like the original; recorded iterations are 0 then every i with i mod thin = 0 up to the stop, each entry's log_p_one matching its alpha. Tie: trees from edit histories and sampler runs round-tripped three ways and edited further; real chain traces re-read and recomputed.",
+         "rustworkx's DFS update inside from_dict is modelled at label level; pickle/gzip trusted; floats/floor outside.",
+         "DESIGN.md section 6 C15"),
+ "C16": ("Coq proof (pigeonhole majority for counts and weights, laminarity, no inconsistent-clades exception, clades exact, uncovered points) + function- and command-level differential search over all small trace multisets",
+         "Theorems for all recorded trees and thresholds >= 1/2: any two retained clades share an input tree hence are nested or disjoint, find_smallest_superset never raises, the output tree's clades are exactly the retained clades (repaired relabel: always; pinned: under the at-most-one-empty-own-set guard, with refutation witnesses), uncovered points get -1. Tie: get_consensus_tree + conversion and the real consensus command on all multisets of <= 3 trees over <= 4 points, thresholds {0.5,0.6,0.75,1}, both weight types.",
+         "Python set iteration order modelled as list order (theorems hold for every order); supports within 1e-9 of the threshold excluded as the statement allows.",
+         "DESIGN.md section 6 C16"),
+ "C18": ("Coq proof of order-free assembly and chain isolation + differential CLI runs under hash seeds, CPU affinity and forced start/completion orders (guarded delay hook), compared bit-for-bit",
+         "Theorems (partial): for every completion order the assembled result map is the same; chain i's entry depends on stream i and the shared inputs only. Tie/search: real `phyclone run --seed S` subprocesses under PYTHONHASHSEED {0,1,12345,random}, taskset, 1-3 chains, every forced completion order; traces compared entry by entry (tree dictionary, alpha, log_p_one bit-for-bit).",
+         "The model cannot exhibit hash-seed, OS scheduling, numba or BLAS nondeterminism: those live in the differential runs only (20 quick / 48 thorough command lines).",
+         "DESIGN.md section 6 C18"),
+ "C19": ("Coq proof of driver totality under named per-kernel hypotheses + index-level iff-theorems and refutation witnesses for the two crash sites + exhaustive random-outcome enumeration of single moves + real driver runs over the click-derived boundary product",
+         "Theorems: given total kernels the trace loop returns only good entries for every (burnin, iters, thin, sweep counts, update flag, clock); the pinned retained-path index is in range iff not (one data point and initial resample), the subtree pick is total iff some point is not an outlier. Search: every random outcome of each move from every start tree over <= 2 points (any exception is a finding) and run_phyclone_chain over the CLI's boundary values read from cli.py at run time.",
+         "Kernel totality is hypothesised in the theorem (C01/C04/C07/C08 supply it) and validated by enumeration and ~300 (quick) / 24k (thorough) real runs.",
+         "DESIGN.md section 6 C19"),
+ "C20": ("Coq proof of prefix-freeness of the pickle opcode stack machine (cuts inside opcode arguments included) and error-or-complete for the gzip member under a stated zlib hypothesis + every-byte-prefix sweep through the real readers + pickletools-to-model opcode correspondence",
+         "Theorems (partial): no strict prefix of a well-formed opcode stream decodes to a value; every strict prefix of the file errors or (cut inside the trailer) yields exactly the written value. Tie/search: every byte prefix of real traces through write_map_results / write_consensus_results / write_topology_report: exception or byte-identical output; opcode streams of the real pickles run through the Coq machine.",
+         "CPython's unpickler, GzipFile and zlib behaving as modelled is validated on every prefix of real traces, not proved.",
+         "DESIGN.md section 6 C20"),
 }
 NOT_YET = "check not built yet in this round (work in progress; see DESIGN.md section 9 build order)"
 
